@@ -120,6 +120,9 @@ pub enum MFault {
         rec: usize,
         #[serde(with = "hexbytes")]
         bytes: Vec<u8>,
+        /// built from the format's grammar by a hostile producer (M-FORGE) rather than noise
+        #[serde(default)]
+        forged: bool,
     },
     /// adversarial non-minimal re-encoding of record `rec` (format specific)
     #[serde(rename = "M-PAD0")]
@@ -136,6 +139,7 @@ impl MFault {
             MFault::Dup { .. } => "M-DUP",
             MFault::Tail { .. } => "M-TAIL",
             MFault::Field { .. } => "M-FIELD",
+            MFault::Garbage { forged: true, .. } => "M-FORGE",
             MFault::Garbage { .. } => "M-GARBAGE",
             MFault::Pad0 { .. } => "M-PAD0",
         }
